@@ -46,6 +46,9 @@ class _Anti:
             for i in range(1, n):
                 vals.append(SymR(ENGINE.fresh("Int%d" % i)))
             cache[ky] = vals
+            # keep the integrand terms alive: z3 hash-conses structurally equal terms to the same
+            # node (same id) only while the first one still exists
+            ENGINE.uf.setdefault("spline_keepalive", []).append((numpy.array(y, dtype=object), self.t))
             if "spline" not in ENGINE.assumption_notes:
                 ENGINE.assumption_notes.append(
                     "UnivariateSpline(...).antiderivative()(t): uninterpreted, A[0]=0, congruent")
